@@ -1,13 +1,14 @@
 #!/bin/sh
-# usage: verify_seed.sh <ID> <k>   (reads /tmp/seed/<ID>/patch<k>.diff, demo<k>.cpp, note<k>.txt)
+# usage: verify_seed.sh <ID> <k> [<srcroot> [<outk>]]  (reads <srcroot>/<ID>/patch<k>.diff, demo<k>.cpp, note<k>.txt; srcroot defaults
+# to /tmp/seed; the seed is stored as /verif/seeded/<ID>-<outk>, outk defaults to k)
 # Confirms in a scratch worktree: patch applies, library builds, the 24 baseline tests pass, the demo passes without and
 # fails with the change. On success copies the material to /verif/seeded/<ID>-<k>/ with meta.json.
-ID=$1; K=$2
-S=/tmp/seed/$ID; W=/tmp/wtv/$ID-$K
+ID=$1; K=$2; ROOT=${3:-/tmp/seed}; OK=${4:-$K}
+S=$ROOT/$ID; W=/tmp/wtv/$ID-$OK
 mkdir -p /tmp/wtv; rm -rf $W
 /verif/tools/mkworktree.sh $W >/dev/null || exit 2
 cd $W || exit 2
-res() { echo "VERIFY $ID-$K: $1"; git -C /repo worktree remove --force $W; exit $2; }
+res() { echo "VERIFY $ID-$OK: $1"; git -C /repo worktree remove --force $W; exit $2; }
 make -s >/dev/null 2>&1 || res "pristine build failed" 1
 g++ -std=c++11 -O2 -I$W/include $S/demo$K.cpp $W/lib/libSQuIDS.a -lgsl -lgslcblas -lm -o $W/demo_pre 2>/dev/null || res "demo does not compile" 1
 $W/demo_pre >$W/pre.out 2>&1; PRE=$?
@@ -19,9 +20,9 @@ $W/demo_post >$W/post.out 2>&1; POST=$?
 echo "$T" | grep -q "24 passes, 0 failures" || res "baseline tests fail with the change: $T" 1
 [ $PRE -eq 0 ] || res "demo fails on pristine tree" 1
 [ $POST -ne 0 ] || grep -q FAIL $W/post.out || res "demo does not fail with the change" 1
-D=/verif/seeded/$ID-$K; mkdir -p $D
+D=/verif/seeded/$ID-$OK; mkdir -p $D
 cp $S/patch$K.diff $D/patch.diff; cp $S/demo$K.cpp $D/demo.cpp; cp $S/note$K.txt $D/note.txt 2>/dev/null
-python3 - "$ID" "$K" "$T" "$PRE" "$POST" "$(tail -1 $W/post.out)" <<'PY'
+python3 - "$ID" "$OK" "$T" "$PRE" "$POST" "$(tail -1 $W/post.out)" <<'PY'
 import json,sys,subprocess
 ID,K,T,PRE,POST,last=sys.argv[1:7]
 note=open('/verif/seeded/%s-%s/note.txt'%(ID,K)).read() if True else ''
